@@ -3,6 +3,7 @@ package vsync
 import (
 	"bytes"
 	"fmt"
+	"os"
 	"runtime"
 	"strconv"
 	"sync"
@@ -26,6 +27,7 @@ const (
 	tsCond            // parked in Cond.Wait, not yet woken
 	tsCondWoke        // woken, must re-acquire L
 	tsWG              // parked in WaitGroup.Wait
+	tsExt             // blocked outside the scheduler's control (channel operation)
 	tsDone
 )
 
@@ -42,6 +44,7 @@ type Thread struct {
 	Panic  any
 	held   map[*RWMutex]int // +1 per read holding, +1000 per write holding
 	label  string
+	ext    bool // blocked in an operation the scheduler does not control (a channel); owned by the Run loop
 }
 
 // Event is one entry of the scheduler's log (lock protocol + marks).
@@ -422,6 +425,9 @@ func CurrentThread() int {
 }
 
 func (s *Sched) enabled(t *Thread) bool {
+	if t.ext {
+		return false
+	}
 	switch t.st {
 	case tsNew, tsPoint, tsPreLock:
 		return true
@@ -521,21 +527,11 @@ func Run(bodies []func(), choose Chooser, logOn bool) *Result {
 		ch := t.resume
 		s.mu.Unlock()
 		close(ch)
-		wd.Reset(s.Watchdog)
-		select {
-		case <-s.yielded:
-			if !wd.Stop() {
-				select {
-				case <-wd.C:
-				default:
-				}
-			}
-		case <-wd.C:
+		if !s.waitYield(t) {
 			res.Stuck = true
-		}
-		if res.Stuck {
 			break
 		}
+		s.syncExt()
 	}
 	for _, t := range s.threads {
 		if t.st != tsDone {
@@ -572,6 +568,157 @@ func Run(bodies []func(), choose Chooser, logOn bool) *Result {
 		}
 	}
 	return res
+}
+
+// waitYield waits for the thread that was just resumed to reach its next scheduling point.  A thread
+// that blocks in an operation the scheduler does not control - a channel receive, a select - never
+// gets there: when nothing has arrived for a while and EVERY other goroutine of the process is blocked
+// (two snapshots in a row), the thread is marked externally blocked and the scheduler moves on; what
+// another thread does later (closing the channel) lets it run again, and it re-joins at its next
+// scheduling point (syncExt).  Programs that never block outside vsync never take the slow path.
+func (s *Sched) waitYield(t *Thread) bool {
+	poll := 500 * time.Microsecond
+	deadline := time.Now().Add(s.Watchdog)
+	quiet := 0
+	for {
+		tm := time.NewTimer(poll)
+		select {
+		case y := <-s.yielded:
+			tm.Stop()
+			if y == t {
+				return true
+			}
+			y.ext = false // an externally blocked thread came back and parked itself
+			continue
+		case <-tm.C:
+		}
+		if time.Now().After(deadline) {
+			return false
+		}
+		if othersBlocked() {
+			quiet++
+		} else {
+			quiet = 0
+		}
+		// "blocked" includes a thread that is just handing itself over on s.yielded: take it now (whoever
+		// was blocked at the snapshot cannot start sending afterwards)
+		got := false
+		for more := true; more; {
+			select {
+			case y := <-s.yielded:
+				if y == t {
+					got = true
+				} else {
+					y.ext = false
+				}
+				quiet = 0
+			default:
+				more = false
+			}
+		}
+		if got {
+			return true
+		}
+		if quiet >= 2 {
+			t.ext, t.st = true, tsExt
+			ExtMarks.Add(1)
+			if f := os.Getenv("VSYNC_EXT_LOG"); f != "" {
+				buf := make([]byte, 1<<18)
+				n := runtime.Stack(buf, true)
+				if fh, err := os.OpenFile(f, os.O_APPEND|os.O_CREATE|os.O_WRONLY, 0o644); err == nil {
+					fmt.Fprintf(fh, "=== thread %d marked externally blocked\n%s\n", t.ID, buf[:n])
+					fh.Close()
+				}
+			}
+			return true
+		}
+		if poll < 10*time.Millisecond {
+			poll *= 2
+		}
+	}
+}
+
+// ExtMarks counts the threads found blocked outside the scheduler's control.
+var ExtMarks atomic.Int64
+
+// syncExt runs after every step while some thread is externally blocked: the step may have released it.
+// It waits until every such thread is blocked again or has parked itself at a scheduling point.
+func (s *Sched) syncExt() {
+	some := false
+	for _, t := range s.threads {
+		if t.ext {
+			some = true
+		}
+	}
+	if !some {
+		return
+	}
+	deadline := time.Now().Add(s.Watchdog)
+	quiet := 0
+	for quiet < 2 && time.Now().Before(deadline) {
+		select {
+		case y := <-s.yielded:
+			y.ext = false
+			quiet = 0
+			continue
+		default:
+		}
+		if othersBlocked() {
+			quiet++
+		} else {
+			quiet = 0
+			runtime.Gosched()
+		}
+		select { // see waitYield: a thread blocked in its hand-over is not blocked
+		case y := <-s.yielded:
+			y.ext = false
+			quiet = 0
+		default:
+		}
+	}
+}
+
+// blockedStates are the goroutine states (as printed in a stack dump) in which a goroutine cannot move
+// before somebody else does something; every other state - running, runnable, syscall, preempted,
+// the garbage collector's assist states - counts as active.
+var blockedStates = map[string]bool{
+	"chan receive": true, "chan send": true, "select": true, "select (no cases)": true,
+	"chan receive (nil chan)": true, "chan send (nil chan)": true,
+	"semacquire": true, "sync.Mutex.Lock": true, "sync.RWMutex.RLock": true, "sync.RWMutex.Lock": true,
+	"sync.Cond.Wait": true, "sync.WaitGroup.Wait": true, "sleep": true, "IO wait": true,
+	"finalizer wait": true, "GC worker (idle)": true, "force gc (idle)": true, "GC sweep wait": true,
+	"GC scavenge wait": true, "timer goroutine (idle)": true, "cleanup wait": true,
+}
+
+// othersBlocked reports whether every goroutine of the process other than the caller is blocked
+// (see blockedStates) in an all-goroutine stack dump.
+func othersBlocked() bool {
+	buf := make([]byte, 1<<16)
+	for {
+		n := runtime.Stack(buf, true)
+		if n < len(buf) {
+			buf = buf[:n]
+			break
+		}
+		buf = make([]byte, 2*len(buf))
+	}
+	for i, r := range bytes.Split(buf, []byte("\n\n")) {
+		if i == 0 || !bytes.HasPrefix(r, []byte("goroutine ")) {
+			continue
+		}
+		a, b := bytes.IndexByte(r, '['), bytes.IndexByte(r, ']')
+		if a < 0 || b < a {
+			continue
+		}
+		st := r[a+1 : b]
+		if c := bytes.IndexByte(st, ','); c >= 0 {
+			st = st[:c]
+		}
+		if !blockedStates[string(st)] {
+			return false
+		}
+	}
+	return true
 }
 
 // Explore enumerates schedules depth first by stateless re-execution. mk must
